@@ -351,8 +351,9 @@ class TransformationGraph(Graph):
             # internal operation. All inputs to `f` should be made inputs to
             # this operation also.
             current_internal = None
-            if isinstance(expr.x.type, TypeOperation) and \
-                    expr.x.type.operator == Function:
+            x_type = expr.x.type.follow()
+            if isinstance(x_type, TypeOperation) and \
+                    x_type.operator == Function:
                 internal: Node = BNode()
                 current_internal = internal
                 self.add((f, TF.internal, internal))
